@@ -14,6 +14,7 @@ import (
 	"fmt"
 	"math/rand"
 	"net/url"
+	"net/http"
 	"os"
 	"strings"
 	"sync"
@@ -40,6 +41,7 @@ type c14ConcReport struct {
 	Errors       []string                 `json:"errors"`
 	Interfered   []string                 `json:"interfered_runs"` // runs dropped: a foreign client touched the daemon
 	Violations   []string                 `json:"violations"`
+	Stuck        bool                     `json:"stuck"`
 	Samples      []map[string]interface{} `json:"samples"`
 	RaceObserved map[string]interface{}   `json:"race_observed,omitempty"`
 }
@@ -428,6 +430,32 @@ func c14Conc(args []string) int {
 		base := *seed*1000003 + int64(run)*101
 		var wg, pwg sync.WaitGroup
 		stop := make(chan struct{})
+		// watchdog: an in-process daemon that stops answering a registry query for 20 s is not slow, it is stuck (and
+		// cannot even be stopped any more): report and leave
+		go func(addr string, run int) {
+			hc := &http.Client{Timeout: 20 * time.Second}
+			for {
+				select {
+				case <-stop:
+					return
+				case <-time.After(2 * time.Second):
+				}
+				resp, err := hc.Get("http://" + addr + "/topics")
+				if err == nil {
+					resp.Body.Close()
+					continue
+				}
+				select {
+				case <-stop:
+					return
+				default:
+				}
+				report.Violations = append(report.Violations, fmt.Sprintf("run %d: nsqlookupd stopped answering GET /topics (20 s) while producers were registering / unregistering and /lookup, /nodes were being polled: %v", run, err))
+				report.Stuck = true
+				hlib.WriteJSON(*rep, report)
+				os.Exit(1)
+			}
+		}(r.d.http, run)
 		for i, p := range prods {
 			wg.Add(1)
 			go func(i int, p string) { defer wg.Done(); r.producer(p, base+int64(i), *ops) }(i, p)
